@@ -64,3 +64,18 @@ pub(crate) mod verif_dev {
         }
     }
 }
+
+/// `crate::vdump!(..)`: eprintln! in the native replay build only (decoding counterexamples), nothing under Kani.
+#[cfg(verif_replay)]
+macro_rules! vdump {
+    ($($t:tt)*) => {{
+        extern crate std as vdump_std;
+        vdump_std::eprintln!($($t)*);
+    }};
+}
+#[cfg(not(verif_replay))]
+macro_rules! vdump {
+    ($($t:tt)*) => {{}};
+}
+#[allow(unused_imports)]
+pub(crate) use vdump;
